@@ -259,7 +259,7 @@ pub fn run_c11(tier: Tier) -> ! {
                     apps: 0,
                 };
                 let depth = tier.pick(4, 7);
-                cfgs.push((format!("TS{ts} sit{situation} P=Tsl/{div}"), cfg, depth, tier.pick(5.0, 90.0), tier.pick(150_000, 3_000_000)));
+                cfgs.push((format!("TS{ts} sit{situation} P=Tsl/{div}"), cfg, depth, tier.pick(60.0, 3000.0), tier.pick(150_000, 3_000_000)));
             }
         }
     }
@@ -335,7 +335,7 @@ pub fn run_c05(tier: Tier) -> ! {
                     apps,
                 };
                 let depth = tier.pick(3, 6);
-                cfgs.push((format!("TS{ts} HSA{hsa} G{g} sit{situation} apps{apps}"), cfg, depth, tier.pick(20.0, 45.0), tier.pick(400_000, 2_000_000)));
+                cfgs.push((format!("TS{ts} HSA{hsa} G{g} sit{situation} apps{apps}"), cfg, depth, tier.pick(120.0, 3000.0), tier.pick(400_000, 2_000_000)));
             }
         }
     }
@@ -368,7 +368,7 @@ pub fn run_c05(tier: Tier) -> ! {
                     mon: W2Mon::C05,
                     apps,
                 };
-                cfgs.push((format!("bursts TS{ts} HSA{hsa} G{g} sit{situation} apps{apps}"), cfg, tier.pick(2, 4), tier.pick(20.0, 45.0), tier.pick(400_000, 2_000_000)));
+                cfgs.push((format!("bursts TS{ts} HSA{hsa} G{g} sit{situation} apps{apps}"), cfg, tier.pick(2, 4), tier.pick(120.0, 3000.0), tier.pick(400_000, 2_000_000)));
             }
         }
     }
@@ -403,7 +403,7 @@ pub fn run_c05(tier: Tier) -> ! {
                     2 => tier.pick(5, 12),
                     _ => tier.pick(5, 10),
                 };
-                plans.push(w4props::Plan { label: format!("dp {n}p diagbuf={diag_buf} operate={operate}"), cfg, depth, max_states: tier.pick(100_000, 3_000_000), secs: tier.pick(20.0, 120.0) });
+                plans.push(w4props::Plan { label: format!("dp {n}p diagbuf={diag_buf} operate={operate}"), cfg, depth, max_states: tier.pick(100_000, 3_000_000), secs: tier.pick(120.0, 3000.0) });
             }
         }
     }
